@@ -107,7 +107,7 @@ var unicodeNames = []string{"é", "Δ", "é_1", "Δx", "xé", "変数", "αβ", 
 // AdvWord is one spelling of the adversarial pool.
 type AdvWord struct {
 	Text  string
-	Class string // hlsl-keyword hlsl-contextual hlsl-intrinsic msl-keyword msl-namespace glsl-keyword glsl-builtin helper case digits unicode
+	Class string // hlsl-keyword hlsl-contextual hlsl-intrinsic msl-keyword msl-namespace glsl-keyword glsl-builtin helper case digits unicode wgsl-builtin-fn
 }
 
 var advPool []AdvWord
@@ -138,7 +138,20 @@ func init() {
 	add("case", caseVariants)
 	add("digits", digitUnderscore)
 	add("unicode", unicodeNames)
+	// predeclared WGSL function names: a module-scope function may shadow them (drawn for function
+	// declarations only, and only when the program does not mention the name, see AdversarialRenaming)
+	for _, w := range wgslBuiltinFns {
+		advPool = append(advPool, AdvWord{w, "wgsl-builtin-fn"})
+	}
 }
+
+var wgslBuiltinFns = fields(`step min max abs clamp mix dot cross length select all any fma pow sign floor ceil sqrt exp exp2 log log2
+sin cos tan asin acos atan atan2 sinh cosh tanh normalize distance reflect refract faceForward smoothstep saturate trunc fract round
+inverseSqrt degrees radians ldexp modf frexp countOneBits countLeadingZeros countTrailingZeros reverseBits firstLeadingBit firstTrailingBit
+extractBits insertBits pack4x8unorm pack4x8snorm pack2x16float unpack4x8unorm unpack2x16float transpose determinant arrayLength
+atomicAdd atomicSub atomicLoad atomicStore atomicMax atomicMin atomicAnd atomicOr atomicXor atomicExchange atomicCompareExchangeWeak
+textureLoad textureStore textureSample textureSampleLevel textureDimensions textureNumLevels textureGather
+workgroupBarrier storageBarrier textureBarrier workgroupUniformLoad dpdx dpdy fwidth dot4U8Packed quantizeToF16`)
 
 // ValidWGSLName reports whether s may be declared by a WGSL program without
 // touching anything predeclared: an identifier that is no keyword, reserved
@@ -279,6 +292,9 @@ func (f *File) AdversarialRenaming(t *rapid.T, prefer []string, veto func(w AdvW
 			}
 			if used[w.Text] || (veto != nil && veto(w, roles)) {
 				continue
+			}
+			if w.Class == "wgsl-builtin-fn" && !(len(roles) == 1 && roles[0] == "fn") {
+				continue // shadowing a predeclared function is only exercised with a function
 			}
 			used[w.Text] = true
 			mapping[old] = w.Text
